@@ -48,7 +48,7 @@ fn mask_edges(n: usize, mask: u64) -> Vec<InputEdge<i32>> {
 
 fn exec_scc(c: &Case, obs: &mut Vec<String>) {
     let mut tarjan = Tarjan::new();
-    let mut gabow = PathBasedScc::new();
+    let mut gabow = PathBasedScc::default(); // `Default` = `new`; re-created objects below use `new`
     let mut pending: Vec<InputEdge<i32>> = Vec::new();
     let mut k = 0;
     for l in &c.ops {
